@@ -22,7 +22,9 @@ META = {
         "(function, spelling, shapes, argument pattern); non-trivial when the array has >= 2 "
         "elements and contains a tie or a negative"
     ),
-    "assumptions": ["float results compared with rtol 1e-12 (same numpy kernels on both sides)"],
+    "assumptions": ["float results compared with rtol 1e-12 (same numpy kernels on both sides); "
+                    "linear algebra on floats with an absolute tolerance of 1e-9 x the magnitude a "
+                    "product of entries can reach (numpy's LU / BLAS round differently)"],
     "min_evaluations": {"quick": 15000, "thorough": 300000},
     "required_counters": ["division_guard"],
 }
@@ -52,14 +54,14 @@ def norm(value):
     return numpy.asarray(value)
 
 
-def compare(got, want, path="result"):
+def compare(got, want, path="result", atol=0.0):
     """None when equal; else text."""
     if isinstance(want, list):
         if not isinstance(got, list) or len(got) != len(want):
             return f"{path}: expected a sequence of {len(want)} results, got {type(got).__name__}" \
                    f"{' of ' + str(len(got)) if isinstance(got, list) else ''}"
         for i, (g, w) in enumerate(zip(got, want)):
-            text = compare(g, w, f"{path}[{i}]")
+            text = compare(g, w, f"{path}[{i}]", atol)
             if text:
                 return text
         return None
@@ -78,7 +80,7 @@ def compare(got, want, path="result"):
     if want.dtype.kind in "iub":
         ok = numpy.array_equal(got, want)
     else:
-        ok = numpy.allclose(got, want, rtol=1e-12, atol=0, equal_nan=True)
+        ok = numpy.allclose(got, want, rtol=1e-12 if not atol else 1e-9, atol=atol, equal_nan=True)
     if not ok:
         return f"{path}: values {got.tolist()!r:.300} != numpy's {want.tolist()!r:.300}"
     return None
@@ -120,7 +122,14 @@ def run_case(case, ctx):
     except Exception as err:  # pylint: disable=broad-except
         O.report_exception(ctx, facts, err, case, what=f"{op.name}/{spelling} kw={kw}")
         return
-    text = compare(got, want)
+    # numpy's own linear algebra (LU based det, blocked matmul) rounds differently
+    # from exact cofactor / term-wise arithmetic: absolute tolerance scaled by the
+    # magnitude a product of entries can reach
+    atol = 0.0
+    if op.group == "linalg" and flat.size and flat.dtype.kind == "f":
+        width = max(max(s) if s else 1 for s in shapes)
+        atol = 1e-9 * (float(numpy.abs(flat).max()) + 1.0) ** (width if op.name == "det" else 2)
+    text = compare(got, want, atol=atol)
     if text:
         kind = "shape" if "shape" in text else ("dtype" if "dtype" in text else "value")
         facts["failure"] = kind
